@@ -389,12 +389,29 @@ type Mode struct {
 }
 
 func ModeOf(env map[string]string) Mode {
-	m := Mode{}
-	if v, ok := env["CI"]; ok && v != "false" {
-		m.CI = true
-	}
+	m := Mode{CI: ciDetected(env)}
 	m.UpdVar, m.HasUpd = env["UPDATE_SNAPS"]
 	return m
+}
+
+// ciDetected: "CI detected" as documented by github.com/gkampitakis/ciinfo, the
+// third-party detector the property is relative to: never when CI=false; otherwise
+// when one of the vendor-neutral variables exists (with any value, even empty) or a
+// vendor's own variable does (only vendors whose rule is "the variable exists" are
+// used by the generators).
+var ciKeys = []string{"CI", "BUILD_ID", "BUILD_NUMBER", "CI_APP_ID", "CI_BUILD_ID", "CI_BUILD_NUMBER", "CI_NAME", "CONTINUOUS_INTEGRATION", "RUN_ID",
+	"GITHUB_ACTIONS", "GITLAB_CI", "TRAVIS"}
+
+func ciDetected(env map[string]string) bool {
+	if env["CI"] == "false" {
+		return false
+	}
+	for _, k := range ciKeys {
+		if _, ok := env[k]; ok {
+			return true
+		}
+	}
+	return false
 }
 
 // MayUpdate / MayCreate: the table of property C05.
